@@ -37,8 +37,8 @@ ASSUMPTIONS = ['CPython\'s unpickler is a deterministic function of the bytes it
                'the pickles are protocol 2 as written by FitInfoFile.write (opcode table of protocols 0-2)']
 EXHAUSTIVE = {'quick': False, 'thorough': True}
 TRUSTED_EXTRA = ['os.truncate on a copy of the written file reproduces a crash at that byte']
-N = {'quick': 30, 'thorough': 72}
-SMALL = 4600          # quick: files up to this size are cut at every offset
+N = {'quick': 48, 'thorough': 200}
+SMALL = 6000          # quick: files up to this size are cut at every offset
 NSAMPLE = 400
 NH = 3                # header pickles written by FitInfoFile.write
 
@@ -229,18 +229,21 @@ def same_record(got, written_obj, written_bytes):
         return False
 
 
-def choose_offsets(case, n, bounds):
+def choose_offsets(case, n, hlen, marks, layout_known):
+    """every offset 0..n (thorough, or a small file), else a sample: the marks (frame boundaries) +-2, the
+    ends of the file, a quarter of the random part in the header and the rest inside the records"""
     if case.get('tier') == 'thorough' or n <= SMALL:
         return list(range(n + 1)), True
     rng = case_rng(case['oseed'], PID, 'offsets')
     pts = {0, 1, 2, n - 1, n}
-    for b in bounds:
+    for b in marks:
         for dlt in (-2, -1, 0, 1, 2, 3):
             if 0 <= b + dlt <= n:
                 pts.add(b + dlt)
-    hlen = bounds[0]
-    while len(pts) < NSAMPLE + 4 * len(bounds):
-        # a quarter of the sample in the header, the rest inside the records
+    # an unexpected file layout (not header + one pickle per record) gets a three times denser sample
+    want = (NSAMPLE if layout_known else 3 * NSAMPLE) + len(pts)
+    want = min(want, n)
+    while len(pts) < want:
         if rng.random() < 0.25 or hlen >= n:
             pts.add(rng.randrange(max(1, hlen)))
         else:
@@ -276,15 +279,26 @@ def sweep(case, with_model=True):
         written = [pickle.dumps(info, 2) for info in infos]
         k = len(infos)
         n = len(data)
-        # frame boundaries as the writer produced them: the file is the header followed by the record pickles
+        # the layout FitInfoFile.write is modelled to produce: three header pickles, then one pickle per record
+        meta = infos[0].meta
+        head = b''.join(pickle.dumps(x, 2) for x in (meta.model_dir, meta.filters, meta.extinction_law))
         tail = b''.join(written)
-        if not data.endswith(tail):
-            raise RuntimeError('harness self-check: the file does not end with the pickles of the written records')
-        hlen = n - len(tail)
-        bounds = [hlen]
-        for w in written:
-            bounds.append(bounds[-1] + len(w))
-        offsets, exhaustive = choose_offsets(case, n, bounds)
+        layout_known = (data == head + tail)
+        hlen = len(head) if data.startswith(head) else 0
+        if layout_known:
+            bounds = [hlen]
+            for w in written:
+                bounds.append(bounds[-1] + len(w))
+            marks = list(bounds)
+        else:
+            bounds = None
+            marks = [hlen]
+        model_full = None
+        if with_model:
+            model_full = model_scan(data, [n])[n]
+            for a, b in model_full[2]:
+                marks += [a, b]
+        offsets, exhaustive = choose_offsets(case, n, hlen, sorted(set(marks)), layout_known)
         branches.add(case['kind'])
         branches.add('records_%d' % k)
         if any(case['conv']):
@@ -298,26 +312,29 @@ def sweep(case, with_model=True):
         first_bad = None
         first_viol = None
         inside = False
+        if not layout_known:
+            first_bad = ('the written file (%d bytes) is not the three header pickles followed by one protocol-2 pickle per '
+                         'record (%d + %d bytes expected): the framing model does not describe this file' % (n, len(head), len(tail)))
         for t in sorted(offsets, reverse=True):
             os.truncate(tp, t)
             st, recs, exc = read_back(tp)
             hist[st] = hist.get(st, 0) + 1
-            complete = sum(1 for b in bounds[1:] if b <= t) if t >= hlen else 0
+            complete = None
+            if bounds is not None:
+                complete = sum(1 for b in bounds[1:] if b <= t) if t >= hlen else 0
             if t == 0:
                 branches.add('offset_0')
             if st == 'O':
                 branches.add('open_error')
             elif st == 'I':
                 branches.add('iter_error')
-            elif t in bounds:
-                branches.add('end_at_record_boundary')
-            else:
-                branches.add('end_inside_record')
-            if hlen < t < n and t not in bounds:
+            elif bounds is not None:
+                branches.add('end_at_record_boundary' if t in bounds else 'end_inside_record')
+            if hlen < t < n and (bounds is None or t not in bounds):
                 inside = True
             if 1 <= len(recs) <= 3 and t < n:
                 branches.add('yielded_%d' % len(recs))
-            # ---- the property itself, on the real reader
+            # ---- the property itself, on the real reader (needs no knowledge of the file layout)
             viol = None
             if len(recs) > k:
                 viol = 'offset %d of %d: %d records yielded but only %d were written' % (t, n, len(recs), k)
@@ -325,15 +342,16 @@ def sweep(case, with_model=True):
                 for i, r in enumerate(recs):
                     if not same_record(r, infos[i], written[i]):
                         viol = ('offset %d of %d: yielded record %d differs from the record written at that position '
-                                '(outcome %s, %d yielded, %d complete frames before the cut)' % (t, n, i, st, len(recs), complete))
+                                '(outcome %s, %d yielded, %s complete frames before the cut)'
+                                % (t, n, i, st, len(recs), complete))
                         break
-                if viol is None and len(recs) > complete:
+                if viol is None and complete is not None and len(recs) > complete:
                     viol = ('offset %d of %d: %d records yielded but only %d complete records lie before the cut'
                             % (t, n, len(recs), complete))
             if viol and first_viol is None:
                 first_viol = viol + '; exception=%s' % exc
             # ---- correspondence with the model
-            if model is not None:
+            if model is not None and bounds is not None:
                 mst, mn, moffs = model[t]
                 exp_offs = [(bounds[i], bounds[i + 1]) for i in range(mn)] if mn <= k else None
                 if (st, len(recs)) != (mst, mn) or moffs != exp_offs:
